@@ -77,6 +77,8 @@ def run(ctx):
         ctx.tie_broken("harness output", "%d of %d runs reported" % (len(runs), len(cases)))
     # T2: the static sc_notify_merge of the working tree against the extracted int-level model
     nc.merge_tie(ctx, [0, 0, 0, 1, 2], 1500 if ctx.quick else 20000)
+    # T3: every rank's trace of single calls co-simulated against the extracted per-rank programs (6 algorithms)
+    nc.cosim_tie(ctx, [0], 90 if ctx.quick else 1200)
     ctx.cov["rule"] = ("sc_notify_payload without payload (and sc_notify, sc_notify_allgather, sc_notify_ext, sc_notify_nary) on the simulated MPI: all 9 algorithm types, "
                        "receiver patterns random/sparse/dense/ring/star/all/empty/self/high-ranks, n-ary widths 2..6, ranges budgets 1..25, superset extra sets, sorted 0/1, in-place and "
                        "separate senders array, 8 scheduler adversaries (deadlock, endless polling and leftover messages are detected by the simulator), 2-4 calls back to back with and "
@@ -84,8 +86,10 @@ def run(ctx):
     ctx.notes["distribution"] = dist
     for c in cases[:: max(1, len(cases) // 4)][:4]:
         ctx.sample(dict(header=c.header(), receivers_call0=c.patterns[0][:5]))
-    ctx.cov["trusted_base"] = ["tools/c2g slices of sc_notify_recursive_nary (anchored on the source text)", "tools/simmpi (scheduler, matching rules, deadlock/livelock/leftover detection)"]
+    ctx.cov["trusted_base"] = ["tools/c2g slices of sc_notify_recursive_nary / sc_notify_recursive / sc_notify (anchored on the source text)",
+                               "tools/simmpi (scheduler, matching rules, deadlock/livelock/leftover detection) and its trace",
+                               "MPI contract used by the program theorems: collectives return the specified values (Section hypotheses coll_contract), every sent message is delivered exactly once to a matching receive (round abstraction for wildcard receives)"]
     ctx.assumptions += ["receiver lists are sorted and duplicate free (documented precondition)",
-                        "theorems cover the n-ary algorithm's arithmetic and level composition; the other eight algorithms are covered by the simulated runs and the oracle",
+                        "theorems: record merge algebra; n-ary and binary recursion arithmetic (matching, routing, delivery, inversion); per-rank programs of allgather, pex, pcx, rsx under the collective contract / round abstraction; nbx, ranges, superset and payloadv are covered by the simulated runs and the oracle only",
                         "within one call a wildcard receive on a level's tag sees exactly that level's messages (round abstraction); consecutive calls are the recorded finding"]
     return "proof"
